@@ -421,6 +421,16 @@ pub fn run(args: &[String]) -> i32 {
         merged.inconclusive("watchdog-timeout", t.clone());
     }
     merged.crashes = crashes.clone();
+    // Sanitizer tier (thorough, C05 and C19): the reduced operation mix under Miri.
+    let mut miri_summary = Value::Null;
+    if tier == Tier::Thorough && replay.is_none() && (prop == "C05" || prop == "C19") {
+        let (summary, failures) = miri_tier(&root, seed);
+        for f in failures {
+            merged.cur_idx = -1;
+            merged.disagreement(&known, "miri-reports-undefined-behaviour-or-a-failed-assertion", None, f);
+        }
+        miri_summary = summary;
+    }
     let wall = started.elapsed().as_secs_f64();
     // Verdict.
     let nviol: u64 = merged.violations.values().map(|v| v.0).sum();
@@ -479,6 +489,9 @@ pub fn run(args: &[String]) -> i32 {
     coverage.insert("coverage_floors_missed".into(), json!(missing_floors));
     coverage.insert("unprivileged_workers".into(), json!(unprivileged || !is_root));
     coverage.insert("repo_fingerprint".into(), json!(repo_fingerprint()));
+    if !miri_summary.is_null() {
+        coverage.insert("miri_tier".into(), miri_summary);
+    }
     if replay.is_none() {
         let evidence = json!({
             "property_id": prop,
@@ -584,4 +597,92 @@ fn repo_fingerprint() -> String {
         h.push_str(&v.to_string());
     }
     format!("{:016x}", hash_str(&h))
+}
+
+/// Runs /verif/miri under `cargo +nightly miri run` in 16 shards. Returns a summary for the
+/// evidence file and one witness per failing shard. If Miri cannot be started the tier is
+/// reported as not run (inconclusive), never as a violation.
+fn miri_tier(root: &str, seed: u64) -> (Value, Vec<Value>) {
+    let shards = 16usize;
+    let count = std::env::var("WAXMON_MIRI_COUNT").ok().and_then(|s| s.parse().ok()).unwrap_or(3usize);
+    let manifest = format!("{}/miri/Cargo.toml", root);
+    let started = Instant::now();
+    // Build once so that the shards do not serialise on the build lock.
+    let build = Command::new("cargo")
+        .args(["+nightly", "miri", "run", "--manifest-path", &manifest, "--", "0", "1", "0", "0"])
+        .env("CARGO_NET_OFFLINE", "true")
+        .output();
+    match &build {
+        Ok(o) if o.status.success() => {},
+        Ok(o) => {
+            let text = String::from_utf8_lossy(&o.stderr).to_string();
+            let tail: String = text.lines().rev().take(15).collect::<Vec<_>>().into_iter().rev().collect::<Vec<_>>().join("\n");
+            // The warm-up run executes the failing-expression corpus: a failure here is a finding
+            // only if Miri itself ran.
+            if text.contains("Undefined Behavior") || text.contains("panicked") {
+                return (
+                    json!({"ran": true, "failed_in_warm_up": true}),
+                    vec![json!({"shard": "warm-up", "output_tail": tail})],
+                );
+            }
+            return (json!({"ran": false, "reason": "cargo +nightly miri could not build or start", "output_tail": tail}), Vec::new());
+        },
+        Err(e) => return (json!({"ran": false, "reason": format!("cannot start cargo: {}", e)}), Vec::new()),
+    }
+    let mut children = Vec::new();
+    for shard in 0..shards {
+        let c = Command::new("cargo")
+            .args(["+nightly", "miri", "run", "--manifest-path", &manifest, "--"])
+            .arg(shard.to_string())
+            .arg(shards.to_string())
+            .arg((seed % 1000).to_string())
+            .arg(count.to_string())
+            .env("CARGO_NET_OFFLINE", "true")
+            .stdin(Stdio::null())
+            .stdout(Stdio::piped())
+            .stderr(Stdio::piped())
+            .spawn();
+        if let Ok(c) = c {
+            children.push((shard, c));
+        }
+    }
+    let mut globs = 0usize;
+    let mut errs = 0usize;
+    let mut operations = 0usize;
+    let mut failures = Vec::new();
+    let mut samples = Vec::new();
+    let ran = children.len();
+    for (shard, c) in children {
+        match c.wait_with_output() {
+            Ok(o) => {
+                let out = String::from_utf8_lossy(&o.stdout).to_string();
+                let err = String::from_utf8_lossy(&o.stderr).to_string();
+                for l in out.lines() {
+                    if l.starts_with("OK ") {
+                        globs += 1;
+                        if samples.len() < 6 {
+                            samples.push(l.to_string());
+                        }
+                    }
+                    else if l.starts_with("ERR-OK ") {
+                        errs += 1;
+                    }
+                    else if let Some(rest) = l.strip_prefix("MIRI-DONE ") {
+                        if let Some(n) = rest.rsplit('=').next().and_then(|n| n.parse::<usize>().ok()) {
+                            operations += n;
+                        }
+                    }
+                }
+                if !o.status.success() {
+                    let tail: String = err.lines().rev().take(25).collect::<Vec<_>>().into_iter().rev().collect::<Vec<_>>().join("\n");
+                    failures.push(json!({"shard": shard, "status": o.status.code(), "stdout_tail": out.lines().rev().take(3).collect::<Vec<_>>(), "stderr_tail": tail}));
+                }
+            },
+            Err(e) => failures.push(json!({"shard": shard, "error": e.to_string()})),
+        }
+    }
+    (
+        json!({"ran": true, "tool": "cargo +nightly miri run (interpreter; detects undefined behaviour, invalid borrows, leaks)", "shards": ran, "globs_exercised": globs, "failing_expressions_exercised": errs, "operations": operations, "failing_shards": failures.len(), "samples": samples, "wall_s": started.elapsed().as_secs_f64()}),
+        failures,
+    )
 }
